@@ -838,7 +838,9 @@ def r06_aggregation(ctx, rule_dc: str = 'R06.2', rule_norm: str = 'R06.3') -> Li
         accn = ast.unparse(rets[-1].value.left)
         den = ast.unparse(rets[-1].value.right)
         lp = loops[-1]
-        acc = [s for s in lp.body if isinstance(s, ast.AugAssign) and isinstance(s.op, ast.Add) and ast.unparse(s.target) == accn]
+        acc = [s for s in lp.body if (isinstance(s, ast.AugAssign) and isinstance(s.op, ast.Add) and ast.unparse(s.target) == accn) or
+               (isinstance(s, ast.Assign) and ast.unparse(s.targets[0]) == accn and isinstance(s.value, ast.BinOp) and
+                isinstance(s.value.op, ast.Add) and accn in (ast.unparse(s.value.left), ast.unparse(s.value.right)))]
         good = den == f"len({ast.unparse(lp.iter)})" and len(acc) == 1
     obs.append(ok(rule_norm, t, gd.loc(), construct=f"{_fn(gd)}::mean") if good else violation(rule_norm, t, gd.loc(), key=f"{_fn(gd)}::mean-of-pairs"))
     for f in wm.funcs:
